@@ -35,6 +35,7 @@ class Env(object):
         self.oob = {}
         self.dist_log = []         # (lhs leaf name | None, [weight values], guarded?) per dist statement instance
         self.order_log = []        # ([leaf names before], [leaf names after]) per active solve_order directive
+        self.notes = {}            # shared remarks, e.g. "soft_in_composed_dyn": softs of a dynamic block used as a Boolean operand
 
     def child(self, owner=None, itvars=None):
         e = Env(self.prog, self.world, self.owner if owner is None else owner,
@@ -43,6 +44,7 @@ class Env(object):
         e.oob = self.oob
         e.dist_log = self.dist_log
         e.order_log = self.order_log
+        e.notes = self.notes
         return e
 
     # ---- path resolution
@@ -249,10 +251,15 @@ def ev(e, env, ctx=0):
             sz, _, _ = env.leaf_term(tuple(lp) + ("size",))
             acc = z3.If(sz == 0, z3.BitVecVal(0, W), acc)
         return acc
-    if k == "dyn":
-        return b2v(block_formula(env, env.owner, e[1], dynamic=True))
-    if k == "dynp":
-        return b2v(block_formula(env, env.abspath(e[1]), e[2], dynamic=True))
+    if k in ("dyn", "dynp"):
+        # a dynamic block used as an operand of a Boolean expression: its hard meaning; what happens to soft statements inside it is
+        # not defined by the property (noted, so that soft comparisons are skipped for such calls)
+        owner = env.owner if k == "dyn" else env.abspath(e[1])
+        tmp = []
+        f = block_formula(env, owner, e[1] if k == "dyn" else e[2], dynamic=True, softs=tmp)
+        if tmp:
+            env.notes["soft_in_composed_dyn"] = True
+        return b2v(f)
     # binary
     lw, ls = ty(e[1], env)
     rw, rs = ty(e[2], env)
@@ -301,7 +308,11 @@ def stmts_formula(stmts, env, softs=None, guards=()):
     acc = []
     for si, s in enumerate(stmts):
         k = s[0]
-        if k == "e":
+        if k == "e" and s[1][0] in ("dyn", "dynp"):
+            # a plain reference: the block's statements become part of the call, soft ones included (under the enclosing guards)
+            owner = env.owner if s[1][0] == "dyn" else env.abspath(s[1][1])
+            acc.append(block_formula(env, owner, s[1][1] if s[1][0] == "dyn" else s[1][2], dynamic=True, softs=softs, guards=guards))
+        elif k == "e":
             acc.append(truth(s[1], env))
         elif k == "soft":
             if softs is not None:
@@ -404,11 +415,11 @@ def stmts_formula(stmts, env, softs=None, guards=()):
     return z3.And(*acc) if acc else z3.BoolVal(True)
 
 
-def block_formula(env, owner_abspath, bname, dynamic=False, softs=None):
+def block_formula(env, owner_abspath, bname, dynamic=False, softs=None, guards=()):
     obj = env.node(owner_abspath)
     blocks = P.all_blocks(env.prog, obj["cls"])
     kind, stmts = blocks[bname]
-    return stmts_formula(stmts, env.child(owner=owner_abspath, itvars={}), softs)
+    return stmts_formula(stmts, env.child(owner=owner_abspath, itvars={}), softs, guards)
 
 
 def object_formula(env, abspath, softs=None):
